@@ -552,7 +552,11 @@ Definition sstep_ok (n src : nat) (gp : graph) (so : sop) (ob : obs) : bool :=
   | SPrim o => step_ok n gp o ob
   | SAddStep x deps =>
     state_ok n ob                                           (* returned or raised *)
-    && graph_eqb (o_adj ob) (expected_step src gp x deps)   (* rejected name => unchanged *)
+    && (if Nat.eqb (o_kind ob) 0
+        then graph_eqb (o_adj ob) (expected_step src gp x deps)   (* accepted => node + edges *)
+        else if mem x (keys gp) then graph_eqb (o_adj ob) gp      (* name taken => unchanged *)
+        else true)      (* other rejections: any well-formed acyclic table (what is left of the
+                           half-added step is compared with the model by the correspondence) *)
   end.
 
 Fixpoint C14_study_ok (n src : nat) (gp : graph) (steps : list (sop * obs)) : bool :=
